@@ -46,7 +46,7 @@ ASSUMPTIONS = [
     "for accepted foreign payloads one decode-encode pass must reach a fixed point that decodes to the same value",
 ]
 MUST_REACH = {"serializer_keys_covered": 180, "int_raw_checks": 100000, "byte_payload_checks": 1000,
-              "fuzz_accepted": 50, "literal_checks": 10000, "literal_checks_through_library_printer": 5000, "refused_encodes_before_good_ones": 60, "template_reloads_provoked": 3, "calls_from_concurrent_threads": 300, "values_encoded_after_template_reload": 20, "block_api_checks": 500, "block_member_assignments": 50, "block_pretty_assignments": 100, "block_values_scribbled": 40, "tz_covered": 3,
+              "fuzz_accepted": 50, "literal_checks": 10000, "literal_checks_through_library_printer": 5000, "refused_encodes_before_good_ones": 60, "template_reloads_provoked": 3, "entry_orders_compared": 500, "blocks_moved_between_messages": 4, "calls_from_concurrent_threads": 300, "values_encoded_after_template_reload": 20, "block_api_checks": 500, "block_member_assignments": 50, "block_pretty_assignments": 100, "block_values_scribbled": 40, "tz_covered": 3,
               "negative_raws_on_signed_flag_fields": 10, "context_values": 20}
 
 
@@ -526,6 +526,14 @@ def check_bytes_key(ctx, rng, key, ser, var):
                         ctx.violation(f"value-differs:{name}", "decode(encode(v)) != v for a value from the template's domain",
                                       {"key": list(key), "context": label, "value": repr(gen_spec.canon(v))[:400],
                                        "got": repr(gen_spec.canon(back))[:400]})
+                    elif _entry_orders(back) != _entry_orders(v):
+                        # equal as mappings, but the entries come back in another order: on the wire the order of entries is
+                        # data (later texture-entry exceptions win over earlier ones for a face both name)
+                        ctx.violation(f"entry-order-changed:{name}", "decode(encode(v)) has the entries of a mapping in another order "
+                                      "than v", {"key": list(key), "context": label, "value": repr(_entry_orders(v))[:300],
+                                                 "got": repr(_entry_orders(back))[:300]})
+                    else:
+                        ctx.count("entry_orders_compared")
                 except Exception as e:
                     ctx.violation(f"own-payload-rejected:{name}", "the serializer cannot decode a payload it produced",
                                   {"key": list(key), "context": label, "payload": p[:300], "exc": repr(e)[:300]})
@@ -592,6 +600,32 @@ def check_bytes_key(ctx, rng, key, ser, var):
 _HELD = []
 
 
+def _entry_orders(v, depth=0):
+    """The order of entries of every mapping inside a value (nested), as a comparable structure."""
+    import dataclasses
+    if depth > 8:
+        return None
+    if hasattr(type(v), "__wrapped__") or type(v).__name__ == "Proxy":
+        try:
+            v = v.__wrapped__
+        except Exception:
+            return None
+    if isinstance(v, dict):
+        return [(repr(k), _entry_orders(x, depth + 1)) for k, x in v.items()]
+    if hasattr(v, "items") and callable(v.items) and not isinstance(v, (str, bytes)):
+        try:
+            return [(repr(k), _entry_orders(x, depth + 1)) for k, x in v.items(multi=True)]
+        except TypeError:
+            return [(repr(k), _entry_orders(x, depth + 1)) for k, x in v.items()]
+    if isinstance(v, (list, tuple)):
+        inner = [_entry_orders(x, depth + 1) for x in v]
+        return inner if any(i is not None for i in inner) else None
+    if dataclasses.is_dataclass(v) and not isinstance(v, type):
+        inner = [(f.name, _entry_orders(getattr(v, f.name), depth + 1)) for f in dataclasses.fields(v)]
+        return inner if any(i[1] is not None for i in inner) else None
+    return None
+
+
 def threads_phase(ctx):
     """The registered field serializers are process-wide objects: the same decode / encode calls from several threads at once."""
     from ..threads import run_concurrently
@@ -608,6 +642,78 @@ def threads_phase(ctx):
         jobs.append((lambda ser=ser, block=block, p=p: gen_spec.canon(ser.deserialize(block, p, pod=True)), d))
         jobs.append((lambda ser=ser, block=block, p=p: bytes(ser.serialize(block, ser.deserialize(block, p, pod=False))), e))
     run_concurrently(ctx, "field-serializers", jobs, reps=ctx.pick(3, 20))
+
+
+def blocks_moved_between_messages(ctx):
+    """Block objects get passed around: one that was used (pretty access) while it belonged to one message is then added to a
+    message of another name where the same block / variable name has another serializer - it goes by the message it is in."""
+    import random as _random
+    by_field = {}
+    for key, ser in se.SUBFIELD_SERIALIZERS.items():
+        try:
+            var = wire_var(key)
+        except Exception:
+            continue
+        if var is None or var.type not in (MsgType.MVT_VARIABLE, MsgType.MVT_FIXED):
+            continue
+        try:
+            label, block, tmpl = contexts_for(key, ser)[0]
+        except Exception:
+            continue
+        if tmpl is None:
+            continue
+        p = None
+        for attempt in range(12):
+            try:
+                v = gen_spec.Deriver(_random.Random(f"{key}:{attempt}"), size_budget=12).gen(tmpl, ctx=se.ParseContext(block.vars) if _needs_block_ctx(ser) else None)
+                cand = ser.serialize(block, v)
+                if cand is se.UNSERIALIZABLE or not bytes(cand):
+                    continue
+                p = bytes(cand)
+                break
+            except Exception:
+                continue
+        if p is not None:
+            by_field.setdefault((key[1], key[2]), {})[key[0]] = (key, block, p)
+    for (bname, vname), per_msg in by_field.items():
+        names = sorted(per_msg)
+        for a in names:
+            for b in names:
+                key_a, block_a, p_a = per_msg[a]
+                key_b, block_b, p_b = per_msg[b]
+                if a == b or se.SUBFIELD_SERIALIZERS.get(key_a) is se.SUBFIELD_SERIALIZERS.get(key_b):
+                    continue
+                ser_b = se.SUBFIELD_SERIALIZERS[key_b]
+                try:
+                    want = gen_spec.canon(ser_b.deserialize(block_b, p_b, pod=False))
+                except Exception:
+                    continue
+                blk = make_block(key_a, **{k: x for k, x in block_a.vars.items() if k != vname})
+                wit = {"key": list(key_b), "moved_from": a, "payload": p_b[:200]}
+                ctx.ev()
+                try:
+                    blk[vname] = p_a
+                    blk.deserialize_var(vname)                      # used under its first message
+                    blk.message_name = b                            # (what Message.add_block does)
+                    for k, x in block_b.vars.items():
+                        blk[k] = x
+                    blk[vname] = p_b
+                    got = blk.deserialize_var(vname)
+                    if gen_spec.canon(got) != want:
+                        ctx.violation("block-goes-by-its-previous-message", "a block moved to a message of another name decoded a field "
+                                      "with the serializer of the message it came from", dict(wit, got=repr(gen_spec.canon(got))[:200],
+                                                                                             want=repr(want)[:200]))
+                        continue
+                    blk.serialize_var(vname, got)
+                    if bytes(blk[vname]) != p_b:
+                        ctx.violation("block-goes-by-its-previous-message", "a block moved to a message of another name encoded a field "
+                                      "with the serializer of the message it came from", dict(wit, got=bytes(blk[vname])[:200]))
+                        continue
+                except Exception as e:
+                    ctx.violation("block-goes-by-its-previous-message", "the Block API raised on a block that was moved to a message of "
+                                  "another name", dict(wit, exc=repr(e)[:200]))
+                    continue
+                ctx.count("blocks_moved_between_messages")
 
 
 def encode_after_template_reload(ctx):
@@ -732,6 +838,8 @@ def run(ctx):
             ctx.sample({"key": list(key), "serializer": name, "wire_type": var.type.name, "tz": tz})
     ctx.flag("stale_registrations", stale)
     threads_phase(ctx)
+    if ctx.shard == 0:
+        blocks_moved_between_messages(ctx)
     encode_after_template_reload(ctx)
 
 
